@@ -38,8 +38,9 @@ def budget(tier):
 def gen(rng, tier):
     fmt = "gff3" if rng.random() < 0.7 else "gtf"
     if fmt == "gff3":
-        feats = G.gff3_batch(rng, rng.randint(1, 9), {"p_id": 0.7, "p_parent": 0.5, "seqids": ["chr1", "chr2"],
-                                                      "pool": [1, 5, 10, 20, 30], "types": ["gene", "mRNA", "exon"]},
+        feats = G.gff3_batch(rng, rng.randint(1, 9) if rng.random() > 0.03 else rng.choice([150, 400, 1050]), {"p_id": 0.7, "p_parent": 0.5, "seqids": ["chr1", "chr2"],
+                                                      "pool": [1, 5, 10, 20, 30], "types": ["gene", "mRNA", "exon"],
+                                                      "ids": ["i%d" % k for k in range(3000)] if rng.random() < 0.5 else G.IDS},
                              unique_ids=True)
     else:
         feats = []
